@@ -283,7 +283,7 @@ struct Interp {
     List::const_iterator do_begin()
     {
 #ifdef MODE_C14
-        noblock_begin("rcu read-side: first access / begin()", 32);
+        noblock_begin("rcu read-side: first access / begin()", 64);
 #endif
         List::const_iterator r;
         if (rh) r = (*rh)->begin();
@@ -305,7 +305,7 @@ struct Interp {
     void step()
     {
 #ifdef MODE_C14
-        noblock_begin("rcu read-side: iterator advance", 8);
+        noblock_begin("rcu read-side: iterator advance", 24);
 #endif
         // both increment forms of the iterators are part of the API
         if ((nsteps++ & 1) == 0) ++it;
@@ -321,7 +321,7 @@ struct Interp {
         switch (o.k) {
             case H_R:
 #ifdef MODE_C14
-                noblock_begin("rcu read-side: lock_read()", 8);
+                noblock_begin("rcu read-side: lock_read()", 24);
 #endif
                 rh.emplace(rg->lock_read());
 #ifdef MODE_C14
